@@ -339,9 +339,27 @@ def gap_with_foreign_event(slices, g, arrival_order=False):
     return False
 
 
-def oracle(slices, flows, stream=None, e2e=False, ids_only=False):
+def input_slices(files):
+    """the communication slices of the INPUT files (one B/E pair or X event per slice; pid = rank)"""
+    out = []
+    for evs in files.values():
+        for e in evs:
+            a = e.get("attr", e.get("args"))
+            if e.get("ph") not in ("B", "X") or not isinstance(a, dict):
+                continue
+            s = sync_of(e["name"])
+            if s is None:
+                continue
+            out.append({"pid": e["pid"], "tid": e["tid"], "ts": e["ts"], "dur": e.get("dur"), "name": e["name"],
+                        "sync": s, "type": a.get("Type"), "peers": peers_of(a), "cg": a.get("CollGroup", "")})
+    return out
+
+
+def oracle(slices, flows, stream=None, e2e=False, ids_only=False, in_slices=None):
     """returns list of (classifier, description).  `stream` (stage level) = the captured output in emission order.
-    `ids_only`: the input contains events that are not valid slices (malformed stream); only the id clause applies."""
+    `ids_only`: the input contains events that are not valid slices (malformed stream); only the id clause applies.
+    `in_slices` (end to end): the communication slices of the input; a group that is a complete chain all-reduce
+    in the INPUT is complete whatever the run did to its slices on the way to the export."""
     v = []
     tol = 1e-6 if e2e else 1e-9
     # -- ids -----------------------------------------------------------------------------------
@@ -396,13 +414,22 @@ def oracle(slices, flows, stream=None, e2e=False, ids_only=False):
         used[k] = used.get(k, 0) + 1
     # -- completeness for complete chain groups ------------------------------------------------------
     cg = complete_groups(slices)
+    if in_slices is not None:
+        for g in complete_groups(in_slices):
+            if g not in cg:
+                cg[g] = [x for x in slices if x["cg"] == g]
+                n_in = sum(1 for x in in_slices if x["cg"] == g and x["type"] in SEND_TYPES)
+                n_out = sum(1 for x in cg[g] if x["type"] in SEND_TYPES)
+                if n_out < n_in:
+                    v.append(("flow-missing-arrow", f"group {g} is a complete chain all-reduce in the input; only {n_out} "
+                              f"of its {n_in} single-cast / multicast-segment sends are exported at all"))
     for g, evs in cg.items():
         missing, extra = [], []
         for snd in evs:
             if snd["type"] not in SEND_TYPES:
                 continue
-            has_recv = any(x["type"] == "WDone Barrier" and x["sync"] == snd["sync"] and x["pid"] == snd["peers"][0]
-                           for x in evs)
+            has_recv = any(x["type"] == "WDone Barrier" and x["sync"] == snd["sync"] and snd["peers"]
+                           and x["pid"] == snd["peers"][0] for x in evs)
             if not has_recv:
                 continue
             n = used.get((snd["pid"], snd["tid"], snd["ts"], snd["sync"]), 0)
@@ -923,12 +950,13 @@ def oracle_on_case(ctx: Ctx, case, verbose=False):
         return out, err, stale, vs
     if kind == "e2e":
         res = run_e2e(case["spec"])
+        ins = input_slices(e2e_files(case["spec"]))
         if res["rc"] != 0 or res["events"] is None:
             ctx.violation("flow-e2e-run-failed", f"acelyzer --flow failed: rc={res['rc']} {res['error']}", case)
             return res, None, 0, []
         ev = res["events"]
         flows = [e for e in ev if e["ph"] in ("s", "f")]
-        vs = oracle(slices_of(ev, e2e=True), flows, stream=None, e2e=True)
+        vs = oracle(slices_of(ev, e2e=True), flows, stream=None, e2e=True, in_slices=ins)
         if any(e["ph"] == "F" for e in ev):
             vs.append(("flow-helper-in-output", "a ph=F helper event is exported"))
         for c, d in vs:
